@@ -20,7 +20,7 @@ From Interval Require Import Specific_stdz Specific_ops Float_full Interval Xrea
 From LMBase Require Import Res ListX IEEE.
 From Flocq Require Import Core BinarySingleNaN.
 From LMPwm Require Import GenComplement PwmModel PwmCheck PwmCheck2 PwmLog PwmProofs PwmExact PwmF32 PwmCheckSound
-  PwmCheck2Sound PwmF32Rescale PwmF32Freq PwmF32FreqCell PwmF32FreqFinite PwmLogProofs.
+  PwmCheck2Sound PwmF32Rescale PwmF32Freq PwmF32FreqCell PwmF32FreqFinite PwmLogProofs PwmLogBase.
 Import ListNotations.
 Local Open Scope nat_scope.
 
@@ -85,6 +85,19 @@ Theorem C09_score_is_logarithm :
       | _ => is_log_of 0 w (fln w) /\ is_log_of 0 base (fln base) /\ s = F32.div (fln w) (fln base)
       end.
 Proof. exact score_is_logarithm. Qed.
+
+(* the general-base clause of C09_score_is_logarithm in the reals: the binary32 quotient
+   s = RN(lw / lb) of two natural logarithms that are within 2^-20 relative of ln w and ln base
+   is within 2^-18 relative (+ the underflow quantum eta = 2^-150) of the real logarithm of w
+   in that base, for every finite base > 0 other than 1 and every finite w > 0 (finite s) *)
+Theorem C09_score_general_base_error :
+  forall (w base lw lb : F32.t),
+    is_log_of 0 w lw -> is_log_of 0 base lb ->
+    is_finite w = true -> (0 < B2R w)%R -> is_finite base = true -> (0 < B2R base)%R -> B2R base <> 1%R ->
+    let s := F32.div lw lb in
+    is_finite s = true ->
+    (Rabs (B2R s - ln (B2R w) / ln (B2R base)) <= / 262144 * Rabs (ln (B2R w) / ln (B2R base)) + eta32)%R.
+Proof. exact general_base_score_error_any. Qed.
 
 (* ... instantiated with the SAME functions that the oracle tables sample: closed, no
    assumption left -- when the extracted table checker accepts the three tables, every score
